@@ -9,6 +9,7 @@ import (
 	"fmt"
 	"os"
 	"sort"
+	"strconv"
 	"strings"
 	"time"
 
@@ -123,13 +124,45 @@ func drain(w *svc.World) error {
 	return nil
 }
 
+// modes of the exploration: what happens to the background jobs between two calls
+var modes = []string{
+	"jobs drained after every call",
+	"jobs held where they start (no job makes a step until the sequence ends)",
+	"jobs held before their completion (every job that starts runs its body, its completion is delivered only when the sequence ends)",
+}
+
+func parkedDump(w *svc.World) string {
+	var sb strings.Builder
+	for _, k := range w.ParkedNames() {
+		j := w.Parked(k)
+		if j == nil {
+			continue
+		}
+		fmt.Fprintf(&sb, "job %s.%s", j.Kind, j.Gate)
+		for _, a := range j.Args {
+			if s, ok := a.(string); ok {
+				sb.WriteString(" " + s)
+			}
+		}
+		sb.WriteString("\n")
+	}
+	return sb.String()
+}
+
 // runCase replays a call sequence on a fresh service and checks the last call.
-func runCase(convBin string, path []int) mc.CaseResult {
+func runCase(convBin string, path []int, mode int) mc.CaseResult {
 	var res mc.CaseResult
 	name := pathName(path)
+	if mode != 0 {
+		name = "[" + modes[mode] + "] " + name
+	}
 	bad := func(sym, f string, a ...any) {
-		res.Violations = append(res.Violations, mc.Violation{Symptom: sym, Key: menu[path[len(path)-1]] + " after [" + pathName(path[:len(path)-1]) + "]",
-			Msg: fmt.Sprintf("after [%s]: ", name) + fmt.Sprintf(f, a...), Replay: map[string]any{"calls": strings.Split(name, " ; ")}})
+		key := menu[path[len(path)-1]] + " after [" + pathName(path[:len(path)-1]) + "]"
+		if mode != 0 {
+			key += fmt.Sprintf(" mode %d", mode)
+		}
+		res.Violations = append(res.Violations, mc.Violation{Symptom: sym, Key: key,
+			Msg: fmt.Sprintf("after [%s]: ", name) + fmt.Sprintf(f, a...), Replay: map[string]any{"calls": strings.Split(pathName(path), " ; "), "mode": modes[mode]}})
 	}
 	w, err := svc.NewWorld(convBin)
 	if err != nil {
@@ -142,6 +175,7 @@ func runCase(convBin string, path []int) mc.CaseResult {
 	if err := drain(w); err != nil {
 		mc.Fatal("setup: %v", err)
 	}
+	canonHeld := ""
 	for i, c := range path {
 		last := i == len(path)-1
 		before := ""
@@ -169,6 +203,29 @@ func runCase(convBin string, path []int) mc.CaseResult {
 			}
 			res.Outcome = fmt.Sprint(failed)
 		}
+		switch mode {
+		case 1:
+			// nothing moves
+		case 2:
+			for _, k := range w.ParkedNames() {
+				if j := w.Parked(k); j != nil && j.Gate == "begin" {
+					if err := w.Step(k); err != nil {
+						if last {
+							bad("c11.does-not-settle", "%v", err)
+							return res
+						}
+						mc.Fatal("%s: %v", name, err)
+					}
+				}
+			}
+		}
+		if mode != 0 && !last {
+			continue
+		}
+		if mode != 0 {
+			// the state successors are built on: tags and parked jobs before anything is drained
+			canonHeld = tagDump(w.Mgr.VerifDump()) + parkedDump(w)
+		}
 		if err := drain(w); err != nil {
 			if last {
 				bad("c11.does-not-settle", "%v", err)
@@ -181,7 +238,11 @@ func runCase(convBin string, path []int) mc.CaseResult {
 	for _, g := range graphCheck(st, w.Mgr.ListTags()) {
 		bad("c11.graph."+strings.SplitN(g, ":", 2)[0], "(after the background jobs ran) %s", g)
 	}
-	out, _ := json.Marshal(caseOut{Canon: tagDump(st)})
+	canon := tagDump(st)
+	if mode != 0 {
+		canon = canonHeld
+	}
+	out, _ := json.Marshal(caseOut{Canon: canon})
 	res.Sample = string(out)
 	return res
 }
@@ -227,6 +288,7 @@ func Run(tier string) int {
 	}
 	convBin := mc.VerifDir + "/bin/vconv"
 	frontierFile := os.Getenv("VERIF_C11_FRONTIER")
+	mode, _ := strconv.Atoi(os.Getenv("VERIF_C11_MODE"))
 	if mc.IsWorker() {
 		var frontier [][]int
 		b, err := os.ReadFile(frontierFile)
@@ -234,7 +296,7 @@ func Run(tier string) int {
 			mc.Fatal("%v", err)
 		}
 		json.Unmarshal(b, &frontier)
-		job := mc.ShardedJob{N: len(frontier), CaseName: func(i int) string { return pathName(frontier[i]) }, Run: func(i int) mc.CaseResult { return runCase(convBin, frontier[i]) }}
+		job := mc.ShardedJob{N: len(frontier), CaseName: func(i int) string { return pathName(frontier[i]) }, Run: func(i int) mc.CaseResult { return runCase(convBin, frontier[i], mode) }}
 		job.Execute(nil)
 		return 0
 	}
@@ -246,71 +308,86 @@ func Run(tier string) int {
 		mc.Fatal("%v", err)
 	}
 	defer os.RemoveAll(tmp)
-	seen := map[string]bool{}
 	var states, transitions, applied int64
-	parents := [][]int{{}}
 	outcomes := map[string]int{}
 	var samples []string
 	complete := true
-	depthDone := 0
-	for d := 1; d <= depth && len(parents) != 0; d++ {
-		var frontier [][]int
-		for _, p := range parents {
-			for c := range menu {
-				frontier = append(frontier, append(append([]int{}, p...), c))
+	depthDone := depth
+	perMode := map[string]any{}
+	end := deadline
+	for mode = 0; mode < len(modes); mode++ {
+		os.Setenv("VERIF_C11_MODE", strconv.Itoa(mode))
+		// what earlier modes did not use is available to the later ones
+		deadline = time.Now().Add(time.Until(end) / time.Duration(len(modes)-mode))
+		seen := map[string]bool{}
+		parents := [][]int{{}}
+		modeStates, modeDepth := int64(0), 0
+		for d := 1; d <= depth && len(parents) != 0; d++ {
+			var frontier [][]int
+			for _, p := range parents {
+				for c := range menu {
+					frontier = append(frontier, append(append([]int{}, p...), c))
+				}
 			}
-		}
-		ff := fmt.Sprintf("%s/frontier%d.json", tmp, d)
-		b, _ := json.Marshal(frontier)
-		os.WriteFile(ff, b, 0o644)
-		os.Setenv("VERIF_C11_FRONTIER", ff)
-		results := make([]string, len(frontier))
-		job := mc.ShardedJob{N: len(frontier), Timeout: 45 * time.Second, Deadline: deadline, CaseName: func(i int) string { return pathName(frontier[i]) }}
-		st := job.ExecuteCollect(rep, func(i int, r mc.CaseResult) { results[i] = r.Sample })
-		transitions += st.Done
-		applied += st.Counters["applied"]
-		for k, v := range st.Outcomes {
-			outcomes[k] += v
-		}
-		for _, i := range st.Hangs {
-			rep.Report(mc.Violation{Symptom: "c11.hang", Key: menu[frontier[i][len(frontier[i])-1]] + " after [" + pathName(frontier[i][:len(frontier[i])-1]) + "]",
-				Msg: fmt.Sprintf("after [%s] the service does not answer any more (no result within 45 s; a call or a background job never returns)", pathName(frontier[i])), Replay: map[string]any{"calls": strings.Split(pathName(frontier[i]), " ; ")}})
-		}
-		for _, i := range st.Crashes {
-			rep.Report(mc.Violation{Symptom: "c11.crash", Key: menu[frontier[i][len(frontier[i])-1]] + " after [" + pathName(frontier[i][:len(frontier[i])-1]) + "]",
-				Msg: fmt.Sprintf("after [%s] the process died: %s", pathName(frontier[i]), firstLines(st.CrashText[i], 6)), Replay: map[string]any{"calls": strings.Split(pathName(frontier[i]), " ; ")}})
-		}
-		if st.TimedOut {
-			complete = false
-			break
-		}
-		depthDone = d
-		var next [][]int
-		for i, s := range results {
-			if s == "" {
-				continue // crashed / hung / violating without canon: not expanded
+			ff := fmt.Sprintf("%s/frontier%d.json", tmp, d)
+			b, _ := json.Marshal(frontier)
+			os.WriteFile(ff, b, 0o644)
+			os.Setenv("VERIF_C11_FRONTIER", ff)
+			results := make([]string, len(frontier))
+			job := mc.ShardedJob{N: len(frontier), Timeout: 45 * time.Second, Deadline: deadline, CaseName: func(i int) string { return pathName(frontier[i]) }}
+			st := job.ExecuteCollect(rep, func(i int, r mc.CaseResult) { results[i] = r.Sample })
+			transitions += st.Done
+			applied += st.Counters["applied"]
+			modeName := modes[mode]
+			for k, v := range st.Outcomes {
+				outcomes[k] += v
 			}
-			var o caseOut
-			json.Unmarshal([]byte(s), &o)
-			if seen[o.Canon] {
-				continue
+			for _, i := range st.Hangs {
+				rep.Report(mc.Violation{Symptom: "c11.hang", Key: menu[frontier[i][len(frontier[i])-1]] + " after [" + pathName(frontier[i][:len(frontier[i])-1]) + "]",
+					Msg: fmt.Sprintf("[%s] after [%s] the service does not answer any more (no result within 45 s; a call or a background job never returns)", modeName, pathName(frontier[i])), Replay: map[string]any{"calls": strings.Split(pathName(frontier[i]), " ; "), "mode": modeName}})
 			}
-			seen[o.Canon] = true
-			states++
-			next = append(next, frontier[i])
-			if len(samples) < 8 && states%17 == 1 {
-				samples = append(samples, pathName(frontier[i]))
+			for _, i := range st.Crashes {
+				rep.Report(mc.Violation{Symptom: "c11.crash", Key: menu[frontier[i][len(frontier[i])-1]] + " after [" + pathName(frontier[i][:len(frontier[i])-1]) + "]",
+					Msg: fmt.Sprintf("[%s] after [%s] the process died: %s", modeName, pathName(frontier[i]), firstLines(st.CrashText[i], 6)), Replay: map[string]any{"calls": strings.Split(pathName(frontier[i]), " ; "), "mode": modeName}})
 			}
+			if st.TimedOut {
+				complete = false
+				break
+			}
+			modeDepth = d
+			var next [][]int
+			for i, s := range results {
+				if s == "" {
+					continue // crashed / hung / violating without canon: not expanded
+				}
+				var o caseOut
+				json.Unmarshal([]byte(s), &o)
+				if seen[o.Canon] {
+					continue
+				}
+				seen[o.Canon] = true
+				states++
+				modeStates++
+				next = append(next, frontier[i])
+				if len(samples) < 8 && states%17 == 1 {
+					samples = append(samples, pathName(frontier[i]))
+				}
+			}
+			parents = next
 		}
-		parents = next
+		if modeDepth < depthDone {
+			depthDone = modeDepth
+		}
+		perMode[modes[mode]] = map[string]any{"states": modeStates, "depth_completed": modeDepth}
 	}
 	cv := rep.Coverage
+	cv["modes"] = perMode
 	cv["states"] = states
 	cv["transitions"] = transitions
 	cv["traces_validated_against_impl"] = transitions
 	cv["evaluations"] = transitions
 	cv["distinct_nontrivial"] = applied
-	cv["rule"] = "BFS over sequences of tag API calls (47-call menu: valid and invalid names, definitions, references to existing/missing/self/cycle-closing tags, query/colour/name updates, marks with known/unknown ids, converter attach/detach, deletes) on the real service holding 3 imported streams, background jobs drained after every call; a state is the complete tag table; every transition runs in a supervised worker process; non-trivial = the call was applied (returned nil)"
+	cv["rule"] = "BFS over sequences of tag API calls (47-call menu: valid and invalid names, definitions, references to existing/missing/self/cycle-closing tags, query/colour/name updates, marks with known/unknown ids, converter attach/detach, deletes) on the real service holding 3 imported streams, in three modes (background jobs drained after every call / every job held where it starts until the sequence ends / every job held before its completion until the sequence ends; in the held modes the references and flags are checked while the jobs are parked and again after they ran); a state is the complete tag table plus the parked jobs; every transition runs in a supervised worker process; non-trivial = the call was applied (returned nil)"
 	cv["menu"] = len(menu)
 	cv["depth_completed"] = depthDone
 	cv["depth_bound"] = depth
